@@ -4,6 +4,8 @@ import SluProofs.Lemmas.Fold
 import SluProofs.Lemmas.FoldCongr
 import SluProofs.Lemmas.RefineResid
 import SluProofs.Lemmas.RefineDenom
+import SluProofs.Lemmas.OettliPrager
+import SluProofs.Lemmas.RefineDense
 /-
 C13 — Reported backward error is the true backward error of the returned X.
 
@@ -13,6 +15,14 @@ the solver as a parameter), `ferrOf` (error-bound set-up), `driverRefine` (glue 
 exact arithmetic (`arithQ` on `Rat`; `arithQC` on `Cx Rat` with the library's magnitude |re|+|im|),
 for all sizes, all matrices in compressed-column storage (any order, duplicates allowed), all
 right-hand sides, every solver function.
+
+`berr_is_cwbe`: the stored `berr[j]` equals `max_{i : d_i ≠ 0} |b - op(A)x|_i / (|op(A)||x| + |b|)_i`.
+`berr_is_min_backward_error` (real arithmetic, `trans ∈ {N,T,C}`, no position stored twice): that number
+is the smallest `ω ≥ 0` for which the returned `x` solves exactly a system `(op(A) + δA) x = b + δb` with
+`|δA| ≤ ω |op(A)|`, `|δb| ≤ ω |b|` entrywise — the Oettli–Prager theorem, proved in
+`Lemmas/OettliPrager.lean` (`oettli_prager`, `oettli_prager_min`); `berr_is_min_backward_error_dup` is
+the version for storage with duplicate positions (weights = sums of the stored magnitudes).  The complex
+routines (`|z| = |re| + |im|`) only get the lower-bound half, see the comment after the theorem.
 -/
 namespace Slu.Refine
 open Slu Slu.Lacon
@@ -140,6 +150,183 @@ example (tr : Trans) (A : CSC (Cx Rat)) (safmin eps : Rat) (b x : Array (Cx Rat)
   (berr_is_cwbe arithQC arithQC_laws absQC_laws (fun _ _ => rfl) tr A safmin eps b x hs2 hsafe).2.2.2.1
 
 end cwbe
+
+/-! ### BERR is the smallest componentwise relative backward error (Oettli–Prager) -/
+
+section minbe
+open Slu.Gssvx Slu.Equil Slu.OettliPrager
+
+/-- the residual row of `berr_is_cwbe` is the dense residual of the Oettli–Prager theorem -/
+theorem residRow_eq_res (tr : Trans) (A : CSC Rat) (x b : Array Rat) (n : Nat) (hn : A.n ≤ n) (hx : x.size ≤ n) (i : Nat) :
+    residRow tr A x b i =
+      res n (opDense tr (cscEntries A)) (fun k => x.getD k 0) (fun k => b.getD k 0) i := by
+  unfold residRow res
+  rw [opMul_eq_dense tr _ _ n i (fun e he => Nat.lt_of_lt_of_le (mem_cscEntries_col A e he) hn)
+    (fun k hk => getD_zero_of_size_le x n k hx hk)]
+
+/-- the denominator row of `berr_is_cwbe` is the Oettli–Prager weight `(E |x| + |b|)_i`, `E(r,c)` being
+the sum of the magnitudes of the entries stored at `(r,c)` -/
+theorem denomRow_eq_den (tr : Trans) (A : CSC Rat) (x b : Array Rat) (n : Nat) (hn : A.n ≤ n) (hx : x.size ≤ n) (i : Nat) :
+    denomRow arithQ tr A x b i =
+      den n (opDense tr (absEntries arithQ A)) (fun k => x.getD k 0) (fun k => |b.getD k 0|) i := by
+  unfold denomRow den
+  rw [opMul_eq_dense tr _ _ n i (fun e he => Nat.lt_of_lt_of_le (mem_absEntries_col A e he) hn)
+    (fun k hk => by
+      show rabs (x.getD k 0) = 0
+      rw [getD_zero_of_size_le x n k hx hk]; rfl)]
+  show rabs (b.getD i 0) + ∑ j ∈ Finset.range n, opDense tr (absEntries arithQ A) i j * rabs (x.getD j 0) = _
+  simp only [rabs_eq_abs]
+  ring
+
+/-- the reported value is the `ω*` of the Oettli–Prager theorem -/
+theorem berrX_eq_omegaStar (tr : Trans) (A : CSC Rat) (safmin eps : Rat) (b x : Array Rat) (n : Nat)
+    (hn : A.n ≤ n) (hx : x.size ≤ n)
+    (hs2 : 0 ≤ safe2 arithQ A.n safmin eps)
+    (hsafe : ∀ i, i < b.size → denomRow arithQ tr A x b i = 0 ∨ safe2 arithQ A.n safmin eps < denomRow arithQ tr A x b i) :
+    berrX arithQ tr A safmin eps b x =
+      omegaStar b.size n (opDense tr (cscEntries A)) (opDense tr (absEntries arithQ A))
+        (fun k => x.getD k 0) (fun k => b.getD k 0) (fun k => |b.getD k 0|) := by
+  rw [(berr_is_cwbe arithQ arithQ_laws absQ_laws (fun _ _ => rfl) tr A safmin eps b x hs2 hsafe).1]
+  unfold omegaStar
+  have e1 : ∀ i, residRow tr A x b i = _ := residRow_eq_res tr A x b n hn hx
+  have e2 : ∀ i, denomRow arithQ tr A x b i = _ := denomRow_eq_den tr A x b n hn hx
+  simp only [e1, e2]
+  show foldMaxIf _ (fun i => rabs _ / _) 0 _ = _
+  simp only [rabs_eq_abs]
+
+/-- **C13 (BERR is the smallest componentwise backward error; duplicates allowed).**  Real exact
+arithmetic, `trans ∈ {N,T,C}`, any compressed-column matrix.  Let `a(i,j)` be entry `(i,j)` of `op(A)`
+(sum of the values stored there), `e(i,j)` the sum of their magnitudes (`= |a(i,j)|` when the position is
+stored once), `m = b.size` rows and `n ≥ A.n, x.size` columns.  Under the hypotheses of `berr_is_cwbe`
+the value stored in `berr[j]` is `≥ 0`, `x` solves exactly a system `(op(A) + δA) x = b + δb` with
+`|δA| ≤ berr · e`, `|δb| ≤ berr · |b|` entrywise, and no `ω ≥ 0` allowing such a perturbation — with the
+bound `ω e` or with the tighter bound `ω |a|` — is smaller than `berr`. -/
+theorem berr_is_min_backward_error_dup (tr : Trans) (A : CSC Rat) (safmin eps : Rat) (b x : Array Rat) (n : Nat)
+    (hn : A.n ≤ n) (hx : x.size ≤ n)
+    (hs2 : 0 ≤ safe2 arithQ A.n safmin eps)
+    (hsafe : ∀ i, i < b.size → denomRow arithQ tr A x b i = 0 ∨ safe2 arithQ A.n safmin eps < denomRow arithQ tr A x b i) :
+    let a : Nat → Nat → Rat := opDense tr (cscEntries A)
+    let e : Nat → Nat → Rat := opDense tr (absEntries arithQ A)
+    let xv : Nat → Rat := fun k => x.getD k 0
+    let bv : Nat → Rat := fun k => b.getD k 0
+    let berr : Rat := berrX arithQ tr A safmin eps b x
+    0 ≤ berr ∧
+    Feasible b.size n a e xv bv (fun i => |bv i|) berr ∧
+    (∀ ω, 0 ≤ ω → Feasible b.size n a e xv bv (fun i => |bv i|) ω → berr ≤ ω) ∧
+    (∀ ω, 0 ≤ ω → Feasible b.size n a (fun i j => |a i j|) xv bv (fun i => |bv i|) ω → berr ≤ ω) := by
+  intro a e xv bv berr
+  have hcw := berr_is_cwbe arithQ arithQ_laws absQ_laws (fun _ _ => rfl) tr A safmin eps b x hs2 hsafe
+  have heq : berr = omegaStar b.size n a e xv bv (fun i => |bv i|) :=
+    berrX_eq_omegaStar tr A safmin eps b x n hn hx hs2 hsafe
+  have hE : ∀ i < b.size, ∀ j < n, 0 ≤ e i j :=
+    fun i _ j _ => le_trans (abs_nonneg _) (opDense_abs_le tr A i j)
+  have hf : ∀ i < b.size, (0 : Rat) ≤ |bv i| := fun _ _ => abs_nonneg _
+  have hz : ∀ i < b.size, den n e xv (fun i => |bv i|) i = 0 → res n a xv bv i = 0 := by
+    intro i hi h0
+    rw [← denomRow_eq_den tr A x b n hn hx i] at h0
+    rw [← residRow_eq_res tr A x b n hn hx i]
+    exact hcw.2.2.2.2 i hi h0
+  have hmin : ∀ ω, 0 ≤ ω → Feasible b.size n a e xv bv (fun i => |bv i|) ω → berr ≤ ω := by
+    intro ω hω h; rw [heq]; exact omegaStar_le _ _ _ _ _ _ _ hE hf ω hω h
+  refine ⟨hcw.2.2.2.1, ?_, hmin, ?_⟩
+  · rw [heq]; exact omegaStar_feasible _ _ _ _ _ _ _ hE hf hz
+  · intro ω hω h
+    exact hmin ω hω (Feasible.mono_E hω (fun i _ j _ => opDense_abs_le tr A i j) h)
+
+/-- **C13 (BERR is the smallest componentwise relative backward error).**  Real exact arithmetic,
+`trans ∈ {N,T,C}`, a compressed-column matrix that stores no position twice (any order inside the
+columns).  With `a(i,j)` entry `(i,j)` of `op(A)`, `m = b.size` rows and `n ≥ A.n, x.size` columns: under
+the hypotheses of `berr_is_cwbe` the value `[sd]gsrfs` stores in `berr[j]` is the smallest `ω ≥ 0` for
+which the returned `x` is the exact solution of a system `(op(A) + δA) x = b + δb` with
+`|δA(i,j)| ≤ ω |a(i,j)|` and `|δb_i| ≤ ω |b_i|` for all `i`, `j` (Oettli–Prager): such a perturbation
+exists for `ω = berr`, and every `ω ≥ 0` for which one exists is `≥ berr`. -/
+theorem berr_is_min_backward_error (tr : Trans) (A : CSC Rat) (safmin eps : Rat) (b x : Array Rat) (n : Nat)
+    (hn : A.n ≤ n) (hx : x.size ≤ n) (hnd : NoDupPos A)
+    (hs2 : 0 ≤ safe2 arithQ A.n safmin eps)
+    (hsafe : ∀ i, i < b.size → denomRow arithQ tr A x b i = 0 ∨ safe2 arithQ A.n safmin eps < denomRow arithQ tr A x b i) :
+    let a : Nat → Nat → Rat := opDense tr (cscEntries A)
+    let xv : Nat → Rat := fun k => x.getD k 0
+    let bv : Nat → Rat := fun k => b.getD k 0
+    let berr : Rat := berrX arithQ tr A safmin eps b x
+    let feasible : Rat → Prop := fun ω => ∃ (dA : Nat → Nat → Rat) (db : Nat → Rat),
+      (∀ i < b.size, ∀ j < n, |dA i j| ≤ ω * |a i j|) ∧ (∀ i < b.size, |db i| ≤ ω * |bv i|) ∧
+      (∀ i < b.size, ∑ j ∈ Finset.range n, (a i j + dA i j) * xv j = bv i + db i)
+    0 ≤ berr ∧ feasible berr ∧ ∀ ω, 0 ≤ ω → feasible ω → berr ≤ ω := by
+  intro a xv bv berr feasible
+  obtain ⟨h0, hfe, _, hmin⟩ := berr_is_min_backward_error_dup tr A safmin eps b x n hn hx hs2 hsafe
+  have he : opDense tr (absEntries arithQ A) = fun i j => |a i j| := by
+    funext i j; exact opDense_abs_eq tr A hnd i j
+  rw [he] at hfe
+  exact ⟨h0, hfe, hmin⟩
+
+
+/-! non-vacuity: a 2 x 2 instance on which every hypothesis holds (`trans = N` and `T`), `berr = 1/2` resp. `3/11` -/
+
+def exA : CSC Rat := { m := 2, n := 2, colptr := #[0, 2, 4], rowind := #[0, 1, 0, 1], val := #[2, 1, 4, 3] }
+def exb : Array Rat := #[1, 2]
+def exx : Array Rat := #[1/2, 1/2]
+
+example : exA.n ≤ 2 ∧ exx.size ≤ 2 ∧ NoDupPos exA ∧ 0 ≤ safe2 arithQ exA.n (1/1000) (1/10) ∧
+    (∀ tr : Trans, tr = .N ∨ tr = .T → ∀ i, i < exb.size → denomRow arithQ tr exA exx exb i = 0 ∨
+      safe2 arithQ exA.n (1/1000) (1/10) < denomRow arithQ tr exA exx exb i) ∧
+    berrX arithQ .N exA (1/1000) (1/10) exb exx = 1/2 ∧
+    berrX arithQ .T exA (1/1000) (1/10) exb exx = 3/11 := by
+  refine ⟨by decide, by decide, by unfold NoDupPos; decide +kernel, by decide +kernel, ?_,
+    by decide +kernel, by decide +kernel⟩
+  rintro tr (rfl | rfl) <;> decide +kernel
+
+example := berr_is_min_backward_error .N exA (1/1000) (1/10) exb exx 2 (by decide) (by decide)
+  (by unfold NoDupPos; decide +kernel) (by decide +kernel) (by decide +kernel)
+example := berr_is_min_backward_error .T exA (1/1000) (1/10) exb exx 2 (by decide) (by decide)
+  (by unfold NoDupPos; decide +kernel) (by decide +kernel) (by decide +kernel)
+
+/-- the hypothesis `NoDupPos` of `berr_is_min_backward_error` cannot be dropped: the 1 x 1 matrix
+that stores `1` and `-1` at `(0,0)` (so `a(0,0) = 0` but `e(0,0) = 2`), `x = b = 1`, satisfies the
+hypotheses of `berr_is_cwbe`, `berr = 1/3`, and no perturbation with `|δA| ≤ berr |a|`, `|δb| ≤ berr |b|`
+exists (it exists only from `ω = 1` on).  With duplicates BERR is still a lower bound of the feasible
+`ω` (`berr_is_min_backward_error_dup`, last clause) and is the minimum for the weights `e`. -/
+def dupA : CSC Rat := { m := 1, n := 1, colptr := #[0, 2], rowind := #[0, 0], val := #[1, -1] }
+
+example :
+    (0 ≤ safe2 arithQ dupA.n (1/1000) (1/10)) ∧
+    (∀ i, i < (#[1] : Array Rat).size → denomRow arithQ .N dupA #[1] #[1] i = 0 ∨
+      safe2 arithQ dupA.n (1/1000) (1/10) < denomRow arithQ .N dupA #[1] #[1] i) ∧
+    berrX arithQ .N dupA (1/1000) (1/10) #[1] #[1] = 1/3 ∧
+    ¬ ∃ (dA : Nat → Nat → Rat) (db : Nat → Rat),
+      (∀ i < 1, ∀ j < 1, |dA i j| ≤ 1/3 * |opDense .N (cscEntries dupA) i j|) ∧
+      (∀ i < 1, |db i| ≤ 1/3 * |(#[1] : Array Rat).getD i 0|) ∧
+      (∀ i < 1, ∑ j ∈ Finset.range 1, (opDense .N (cscEntries dupA) i j + dA i j) * (#[1] : Array Rat).getD j 0
+        = (#[1] : Array Rat).getD i 0 + db i) := by
+  refine ⟨by decide +kernel, by decide +kernel, by decide +kernel, ?_⟩
+  rintro ⟨dA, db, h1, h2, h3⟩
+  have e0 : opDense .N (cscEntries dupA) 0 0 = 0 := by decide +kernel
+  have a1 := h1 0 (by decide) 0 (by decide)
+  have a2 := h2 0 (by decide)
+  have a3 := h3 0 (by decide)
+  simp only [Finset.sum_range_one, e0, abs_zero, mul_zero] at a1 a3
+  have hd : dA 0 0 = 0 := abs_nonpos_iff.mp a1
+  have g1 : (#[1] : Array Rat).getD 0 0 = 1 := by decide +kernel
+  rw [g1] at a2 a3
+  rw [hd] at a3
+  have : db 0 = -1 := by linarith
+  rw [this] at a2
+  norm_num at a2
+
+/-
+The complex case (`arithQC`, magnitude `|z|₁ = |re z| + |im z|`, which is not the modulus) is NOT
+covered and the equivalence does not hold for it as stated.  What holds for `|·|₁`:
+* `|z w|₁ ≤ |z|₁ |w|₁`, hence the (→) direction with constant 1: if `(A + δA) x = b + δb` with
+  `|δA|₁ ≤ ω |A|₁`, `|δb|₁ ≤ ω |b|₁` entrywise then `|r_i|₁ ≤ ω (|A|₁|x|₁ + |b|₁)_i`, i.e. the BERR of
+  `[cz]gsrfs` is a lower bound of every feasible `ω`;
+* the (←) direction fails: `|·|₁` is not multiplicative (`|z|₁ |w|₁ ≤ 2 |z w|₁` is the best reverse
+  bound), so the perturbation `δA_ij = (r_i/d_i) |A_ij|₁ |x_j|₁ / x_j` only satisfies `|δA_ij|₁ ≤ 2 ω |A_ij|₁`.
+  Example (1 x 1): `A = 1+i`, `x = 1+i`, `b = 0`: `r = -2i`, `d = 4`, BERR `= 1/2`, but `δb = 0` and
+  `x ≠ 0` force `δA = -A`, so the smallest feasible `ω` is `1 = 2 · BERR`.
+So for complex data BERR ≤ ω_min ≤ 2 · BERR in the `|·|₁` sense (not formalised here), with both
+ends attained; the exact characterisation above is a statement about `[sd]gsrfs`.
+-/
+
+end minbe
 
 /-! ### the loop -/
 
